@@ -69,9 +69,9 @@ def run(chk):
     scratch = vf.scratch_dir(chk.pid)
     chk.rule = RULE
     chk.sanitizer = {"flavour": "asan", "reports": 0}
-    n_fm = vf.tier_n(chk.tier, 224, 3360)
-    n_imc = vf.tier_n(chk.tier, 480, 6400)
-    n_qr = vf.tier_n(chk.tier, 4000, 60000)
+    n_fm = vf.tier_n(chk.tier, 224, 6720)
+    n_imc = vf.tier_n(chk.tier, 480, 9600)
+    n_qr = vf.tier_n(chk.tier, 4000, 100000)
     try:
         # (c) library harness
         shards = 16
